@@ -490,7 +490,8 @@ def replay(rec, path):
     wd = tlc.scratch()
     if rec["clause"] == "build-raises" or not isinstance(T, list) or T[0] == "hand-written":
         evs = extra_events(prop, 1, "quick") if (not isinstance(T, list) or T[0] == "hand-written") else _record_group((0, T, [], {prop}))
-        hit = [e for e in evs if e[0] == "BuildFailed" and (e[2] == T)]
+        hit = [e for e in evs if e[0] == "BuildFailed" and (e[2] == T)
+               and not (e[4][0] == "NotImplementedError" and "isn't supported" in e[4][1])]   # same exemption as run()
         if rec["clause"] != "build-raises":
             bad, _, _ = validate(evs, wd)
             hit = [k for k, v in bad.items() if rec["clause"] in v]
